@@ -10,12 +10,15 @@ PART = {
     text="(F95 / F96) the batch reader can be asked again after a failed call: for every state with a projected column the repaired carquet_batch_reader_next returns a status and never dereferences a missing column reader (C04_batch_next_never_ub; the pinned code did, C04_regression_F96); every BYTE_ARRAY dictionary entry the repaired scan accepts lies inside the page (C04_dict_scan_entries_in_page; the pinned 32-bit sum accepted entries announcing 2^32 - k bytes, C04_regression_F95)",
   ),
   "C05": dict(
-    imports=["Carquet.Properties.C05.BrokenFlush"],
-    obligations=["Carquet.Properties.C05.BrokenFlush.C05_failed_flush_poisons_close", "Carquet.Properties.C05.BrokenFlush.C05_regression_F97"],
+    imports=["Carquet.Properties.C05.BrokenFlush", "Carquet.Properties.C05.BrokenBatch"],
+    obligations=["Carquet.Properties.C05.BrokenFlush.C05_failed_flush_poisons_close", "Carquet.Properties.C05.BrokenFlush.C05_regression_F97",
+                 "Carquet.Properties.C05.BrokenBatch.C05_failed_batch_poisons_close", "Carquet.Properties.C05.BrokenBatch.C05_rejected_batch_harmless",
+                 "Carquet.Properties.C05.BrokenBatch.C05_regression_F98"],
     components=["c05alloc"],
-    fidelity={"Properties.C05.BrokenFlush (F97): status flow of flush_row_group / new_row_group / close with respect to writer->broken": "structural (what an attempt to finish a row group does is a parameter)"},
-    text="(F97) after a row-group flush that failed half-way no later flush and no close reports OK (C05_failed_flush_poisons_close; the pinned writer repeated the flush and reported an invalid file complete: C05_regression_F97, found by the c05alloc component)",
-    rule="c05alloc: a well-formed history executed with ONE allocation failure inside a row-group flush or the close (every k-th request of those calls; quick: every (K/25)-th), a failed carquet_writer_new_row_group is called again; whenever every call in the end and close said OK the file goes to the independent reader (`wrspec`)",
+    fidelity={"Properties.C05.BrokenFlush (F97): status flow of flush_row_group / new_row_group / close with respect to writer->broken": "structural (what an attempt to finish a row group does is a parameter)",
+              "Properties.C05.BrokenBatch (F98): the same flow extended by carquet_writer_write_batch (a failure other than INVALID_ARGUMENT is recorded in writer->broken)": "structural (the status the row-group writer returns for a batch is a parameter)"},
+    text="(F97 / F98) after a row-group flush that failed half-way, and after a write_batch that failed past its argument checks, no later flush and no close reports OK, whatever calls follow (C05_failed_flush_poisons_close, C05_failed_batch_poisons_close; a batch refused by the argument checks changes nothing: C05_rejected_batch_harmless; the pinned writer repeated the flush, or carried on after the half-taken batch, and reported an invalid file complete: C05_regression_F97, C05_regression_F98, both found by the c05alloc component)",
+    rule="c05alloc: a well-formed history executed with ONE allocation failure inside a row-group flush or the close (every k-th request of those calls; quick: every (K/25)-th), a failed carquet_writer_new_row_group is called again; the same with the failure allowed inside write_batch calls too (wb=1; the caller carries on with the rest of the history); whenever close said OK the file goes to the independent reader (`wrspec`: the table of the history if every call said OK, structural validity otherwise)",
   ),
   "C17": dict(
     imports=[], obligations=[], components=["refread"], pregen={"refread": "reffiles"},
